@@ -304,11 +304,15 @@ impl Gen {
             11 => { let kind = if self.rng.chance(1, 8) && !self.prof.gentle { 3 } else { self.rng.below(3) as u8 }; let calls = self.pick_calls(pre.ents.len()); Op::Iterate { kind, calls, forget: false } }
             12 => Op::Debug,
             _ => {
-                match self.rng.below(8) {
-                    0 | 1 | 2 if n_caches < 3 => Op::CloneCache,
+                match self.rng.below(10) {
+                    0 | 1 if n_caches < 3 => Op::CloneCache,
+                    2 if n_caches < 3 => { // an independently constructed sibling (own hasher instance, own limit and capacity)
+                        let m = match self.rng.below(4) { 0 => pre.max, 1 => pre.max / 2, 2 => pre.cur / 2, _ => (base + 60) * self.rng.range(1, 8) };
+                        Op::NewCache { max: m, cap0: match self.rng.below(3) { 0 => None, 1 => Some(self.rng.usize_below(8)), _ => Some(pre.cap + self.rng.usize_below(20)) } } }
                     3 | 4 if n_caches > 1 => Op::Switch { idx: self.rng.usize_below(n_caches) },
                     5 if n_caches > 1 => Op::DropCache { idx: self.rng.usize_below(n_caches) },
                     6 if n_caches > 1 => { let kind = 4 + self.rng.below(3) as u8; let calls = self.pick_calls(pre.ents.len()); Op::Into { kind, calls, forget: false } }
+                    7 | 8 if n_caches > 1 => Op::CloneFrom { src: (cur + 1 + self.rng.usize_below(n_caches - 1)) % n_caches },
                     _ => if n_caches < 3 { Op::CloneCache } else { Op::Switch { idx: (cur + 1) % n_caches } },
                 }
             }
